@@ -59,6 +59,11 @@ def fault_catalogue():
     out.append(("cert-truncated", {"status": 200, "body": "-----BEGIN CERTIFICATE-----\nMIIB", "ctype": "application/pem-certificate-chain"}, 1))
     out.append(("cert-other-key", {"other_key_cert": True}, 1))
     out.append(("cert-chain-reversed", {"chain_reversed": True}, 1))
+    # the first block is the right certificate, a LATER block is not a certificate at all
+    garbage = "-----BEGIN CERTIFICATE-----\nMIIBgarbagegarbage\n-----END CERTIFICATE-----\n"
+    out.append(("cert-later-block-garbage", {"chain_opts": {"chain_sep": garbage, "chain_len": 3}}, 1))
+    out.append(("cert-last-block-garbage", {"chain_opts": {"chain_tail": garbage}}, 1))
+    out.append(("cert-last-block-truncated", {"chain_opts": {"chain_tail": "-----BEGIN CERTIFICATE-----\nMIIB"}}, 1))
     return out
 
 
@@ -140,6 +145,8 @@ def run_fault(sc, root, helper, n_postop=1, extra_opts=None, hook_exits=None, ti
     if ans.pop("chain_reversed", False):
         opts["chain_order"] = "reversed"
         opts["chain_len"] = 3
+    elif "chain_opts" in ans:
+        opts.update(ans.pop("chain_opts"))
     elif ans.pop("other_key_cert", False):
         other = helper.call({"op": "selfsigned", "dns": [i["dns"] for i in IDENTS], "ips": [], "not_after_offset": 90 * 86400})
         opts["cert_body"] = other["cert_pem"]
@@ -171,7 +178,8 @@ def run_fault(sc, root, helper, n_postop=1, extra_opts=None, hook_exits=None, ti
 
 def fault_hit(obs):
     """Did the injected fault actually fire (the flow reached that position)?"""
-    return any(e.get("rule") for e in obs["ca"] if e["kind"] == "req") or obs["sc"]["fault"] in ("cert-other-key", "cert-chain-reversed")
+    return any(e.get("rule") for e in obs["ca"] if e["kind"] == "req") or obs["sc"]["fault"] in ("cert-other-key", "cert-chain-reversed") \
+        or "-block-" in obs["sc"]["fault"]
 
 
 def attempts_of(obs):
